@@ -217,15 +217,16 @@ CHECKS["C12"] = dict(
     design="DESIGN.md section 4 (C12)")
 
 CHECKS["C13"] = dict(
-    engine="E1 nbsym on convolve_templates and normalize_template with the FFT contract; z3",
-    technique="symbolic execution of numba's typed IR of convolve_templates (typed lists of templates and reference bins) with the FFT contract and the normalisation as an elementwise map established from normalize_template's IR; z3 decides the bilinear identities; models replayed on the compiled kernel",
+    engine="E1 nbsym on convolve_templates and normalize_template with the FFT contract; E2 on MatchedFilter._compute/__init__/get_box_width_spacing (numpy's own argmax on symbolic responses); z3",
+    technique="symbolic execution of numba's typed IR of convolve_templates (typed lists of templates and reference bins) with the FFT contract and the normalisation as an elementwise map established from normalize_template's IR; symbolic execution of the real MatchedFilter bytecode with symbolic response matrices and spacing factor; z3 decides the bilinear identities and the argmax/ladder obligations; models replayed on the compiled kernel and the real class",
     text="PARTIAL. Decided: for every data length up to the bound (incl. odd good FFT sizes), template length <= 3 and reference bin, "
-         "convs[i,t] = sum_k zp[(t+k-ref) mod N]*Hn[k] with zp the data periodically extended to the good size N and Hn the zero-padded template "
-         "after normalisation; normalize_template gives zero mean and unit power through one affine map for all bins (unchanged when the power "
-         "is zero). NOT decided: FFT accuracy; the argmax bookkeeping of MatchedFilter._compute; invariance under offset/scale of the data "
-         "(depends on the robust estimators of C15); gaussian/lorentzian generators; end-to-end boxcar recovery.",
-    note="FFT contract trusted; exact arithmetic with sqrt as a fresh non-negative root; small shapes.",
-    design="DESIGN.md section 4 (C13)")
+         "convs[i,t] = sum_k zp[(t+k-ref) mod N]*Hn[k] with zp the data periodically extended to the good size N and Hn the zero-padded template after normalisation; "
+         "normalize_template gives zero mean and unit power through one affine map for all bins (unchanged when the power is zero); MatchedFilter hands the z-scores and the bank "
+         "(templates, reference bins, in order) to convolve_templates, reports the maximum response as S/N and its row/column as best template/peak bin, and standardises the data "
+         "with the requested estimators only (so offset/positive-scale invariance reduces to C15's equivariance); the boxcar width ladder starts at 1, strictly increases, stays "
+         "within the maximum and is maximal for every spacing factor. NOT decided: FFT accuracy; gaussian/lorentzian generators (exp); end-to-end boxcar recovery.",
+    note="FFT contract trusted; exact arithmetic with sqrt as a fresh non-negative root; small shapes (response matrices up to 3x3).",
+    design="DESIGN.md section 4 (C13), section 10")
 
 CHECKS["C15"] = dict(
     engine="E3: the real estimate_loc/estimate_scale/estimate_zscore/_scale_* (incl. the 1-D qn/gapper/diffcov bodies and doublemad) and utils.apply_along_axes bytecode on numpy object arrays of symbolic reals; order statistics as uninterpreted functions of their ordered lane under a trusted contract; z3",
@@ -252,113 +253,6 @@ CHECKS["C16"] = dict(
          "PARTIAL: h5py itself is FFI (contract; replays use the real library), the z-scores are those of C15, the default mask value is not decided.",
     note="The per-statistic mask functions and the custom function are arbitrary boolean vectors in the combination harness; 2-7 channels, 0-2 ranges, radius <= 5.",
     design="DESIGN.md section 4 (C16), section 10")
-
-CHECKS["C17"] = dict(
-    engine="E2/E3 pysym on the real FoldedData.update_dm/update_period/_get_dmdelays/_get_pdelays with the real compute_dmdelays over exact symbolic reals; z3",
-    technique="symbolic execution of the real update/bookkeeping bytecode over histories of re-tuning operations with free real DM targets (profiles modelled as rotation offsets); z3 (LIRA with to_int) decides equality with a fresh cube and with an independent shift specification; models replayed on the real FoldedData",
-    text="For every history of length <= 3 (quick) / 4 (thorough) over update_dm(free real target), update_dm(folding DM), update_dm(previous "
-         "target) and update_period(p) for p in a small alphabet, the real methods run symbolically on a cube whose profiles are rotation "
-         "offsets; on every path z3 proves that each profile's rotation equals that of a fresh cube re-tuned once to the final targets and the "
-         "independently specified shift of the final DM/period relative to the folding values (so repeats are no-ops and returning to the "
-         "folding values restores the cube), and that dm/period report the last targets.",
-    note="Exact arithmetic with half-even rounding; DM targets in [0,1000]; absolute-shift obligation excludes a 1e-6 neighbourhood of rounding "
-         "boundaries; period targets from an alphabet; profile contents are not modelled (updates only call np.roll).",
-    design="DESIGN.md section 4 (C17)")
-
-CHECKS["C18"] = dict(
-    engine="E2 pysym on the real PFITSReader.read_block/read_plan and PFITSFile.read_subints index arithmetic; E3 on read_subint/read_subint_pol over object arrays of symbolic reals; z3",
-    technique="dynamic symbolic execution of the real PSRFITS reader bytecode with NSBLK, row count, start, nsamps, gulp, skipback as unbounded integers (row reads as a contract); value pipeline over exact symbolic reals; z3 decides; models replayed on the repository's PSRFITS test file",
-    text="read_block: for every (start, nsamps) the rows requested exist, are consecutive, the slice is exactly [start, start+nsamps), out-of-range "
-         "requests raise ValueError, in-range ones never do, channels come out descending. read_plan: blocks hold exactly the reported samples "
-         "and tile the request as in C01 (same obligations). Value pipeline: ((raw - zero_off)*scale + offset)*weight and the polarisation "
-         "selection are proved for symbolic raw values/scales/offsets/weights at a small shape. Streaming reductions then follow from C06, which "
-         "only depends on the read_plan contract.",
-    note="astropy.io.fits is FFI: row access is a contract stub; header value types are outside; replay only at the shape of tests/data/parkes_4bit.sf; "
-         "single-polarisation layouts are not claimed.",
-    design="DESIGN.md section 4 (C18)")
-
-CHECKS["C14"] = dict(
-    engine="E1 nbsym on downsample_1d_mean / downsample_2d_mean_flat / detrend_1d; E3 (real numpy over object arrays of symbolic reals) on running_filter, downsample_1d/2d/2d_flat, TimeSeries.deredden, FilterbankBlock.downsample; z3",
-    technique="symbolic execution of numba's typed IR of the decimation/detrend kernels and of the real numpy glue bytecode over object arrays of symbolic reals (np.pad, reshape, mean(axis) are numpy's own); z3 (LRA/NRA + UF for medians) decides every shape/factor/window; models replayed against brute-force numpy definitions",
-    text="Every (length, factor) up to the bound for the 1-D mean kernel (float32 and uint8: accumulate without wrap, truncate once), every small "
-         "non-square shape and factor pair for the flattened 2-D kernel, and detrend_1d (both normal equations and linearity of the removed trend) "
-         "are decided from the typed IR. The real running_filter runs on numpy object arrays through numpy's own symmetric pad for every "
-         "(n, window) up to the bound, both methods: each output equals the mean/median of the centred window over the symmetrically reflected "
-         "series and the length is preserved; the real 1-D/2-D/flat decimators (mean via the interpreted kernels, median via numpy reshape) give "
-         "the group statistic of every full group on both axes; deredden is input minus filter; FilterbankBlock.downsample's header follows the factors.",
-    note="bottleneck's moving windows and the median are trusted stubs (median = uninterpreted function of its ordered window); exact arithmetic; "
-         "running_filter_fast is outside the claim.",
-    design="DESIGN.md section 4 (C14)")
-
-CHECKS["C04"] = dict(
-    engine="E2 pysym: byte accounting of the real writers/readers (cwrite, prep_outfile, to_/from_ tim, dat, spec, fft, to_file, requantize) over a symbolic write log; z3",
-    technique="dynamic symbolic execution of the real writer and reader bytecode with dtype-tagged functional arrays; the reader's np.fromfile window is mapped back onto the bytes written; z3 (LIA+UF, Skolem index) decides counts, widths and element identity; models replayed on real files",
-    text="cwrite through prep_outfile for every depth {1,2,4,8,16,32} x in-memory dtype {uint8,uint16,int64,float32,float64}: either the write is "
-         "refused before any data byte, or bytes*8 = samples*nchans*nbits, the item type (or packing) is the declared depth's, representable "
-         "values are stored unchanged in order and the reader's inferred sample count equals the samples written. .tim/.dat/.spec/.fft: the "
-         "real from_* reader run on the bytes the real to_* writer produced returns the same number of samples/bins with identical values "
-         "(no header byte read as a sample). to_file writes a 32-bit time-major block after one header; requantize writes at nbits_out.",
-    note="np.tofile/fromfile and encode_header are trusted stubs; .inf text and astropy formatting outside; values assumed representable at the declared depth.",
-    design="DESIGN.md section 4 (C04)")
-
-CHECKS["C05"] = dict(
-    engine="E2 pysym on the real header codec (encode_header/encode_key/parse_header/_read_string/edit_header/parse_radec, from_sigproc frame mapping) over a token model of struct/files; z3",
-    technique="dynamic symbolic execution of the real SIGPROC header codec with symbolic field values (struct and file objects as token-level stubs); z3 decides byte/field equality per path; parse_radec's sexagesimal string is parsed back symbolically; models replayed with real struct and files",
-    text="For every tuple of 1..2 (quick) / 3 (thorough) recognised keys in any order with symbolic numeric values: encode(parse(bytes)) = bytes, "
-         "parse(encode(h)) = h, hdrlen = bytes consumed, datalen = file length - hdrlen. edit_header for every recognised key (and an unknown "
-         "one) with symbolic/shorter/longer values: either only that key's value bytes change at constant length, or it raises with nothing "
-         "written. from_sigproc maps the (pulsarcentric, barycentric) flags written by to_sigproc back to the same frame. parse_radec: for every "
-         "DDMMSS.S/HHMMSS.S the sexagesimal string it builds decodes to the same magnitude and to the sign of src_dej, including 0 > dec > -1 deg.",
-    note="struct pack/unpack and astropy's sexagesimal parser are trusted stubs; string values from a small alphabet; 0.01-arcsec astropy accuracy outside.",
-    design="DESIGN.md section 4 (C05)")
-
-CHECKS["C12"] = dict(
-    engine="E1 nbsym on fftconvolve/circular_pad_goodsize/form_mspec with the FFT as a trusted contract (symx/fftc.py); E2 on TimeSeries.rfft/correlate and FourierSeries.ifft; z3",
-    technique="symbolic execution of numba's typed IR of the FFT-based kernels and of the real rfft/ifft/correlate bytecode with rfft/irfft replaced by a convolution-theorem contract (incl. irfft's default output length); z3 decides the resulting polynomial identities; models replayed on the real kernels",
-    text="PARTIAL. Decided: the library's own bookkeeping around the FFT - good-size choice, zero padding, the [:n+m-1] slice, reversal for "
-         "correlation, the length passed (or not passed) to irfft, header nsamples - for every series length up to the bound and kernel length "
-         "<= n with symbolic real data: fftconvolve = full linear convolution, correlate = correlation at lags -(m-1)..n-1, rfft then ifft = "
-         "input zero-padded to the transform length for every n (incl. odd good sizes), circular_pad_goodsize = periodic extension, "
-         "form_mspec = modulus of each bin. NOT decided: that rocket-fft computes the discrete Fourier sum, Parseval's identity, and the float32 "
-         "FFT error (the FFT is FFI; these remain assumptions).",
-    note="FFT contract trusted (symx/fftc.py); rocket_fft.good_size evaluated concretely; exact arithmetic; lengths <= 6/10 (convolution) and <= 15/27 (round trip).",
-    design="DESIGN.md section 4 (C12)")
-
-CHECKS["C13"] = dict(
-    engine="E1 nbsym on convolve_templates and normalize_template with the FFT contract; z3",
-    technique="symbolic execution of numba's typed IR of convolve_templates (typed lists of templates and reference bins) with the FFT contract and the normalisation as an elementwise map established from normalize_template's IR; z3 decides the bilinear identities; models replayed on the compiled kernel",
-    text="PARTIAL. Decided: for every data length up to the bound (incl. odd good FFT sizes), template length <= 3 and reference bin, "
-         "convs[i,t] = sum_k zp[(t+k-ref) mod N]*Hn[k] with zp the data periodically extended to the good size N and Hn the zero-padded template "
-         "after normalisation; normalize_template gives zero mean and unit power through one affine map for all bins (unchanged when the power "
-         "is zero). NOT decided: FFT accuracy; the argmax bookkeeping of MatchedFilter._compute; invariance under offset/scale of the data "
-         "(depends on the robust estimators of C15); gaussian/lorentzian generators; end-to-end boxcar recovery.",
-    note="FFT contract trusted; exact arithmetic with sqrt as a fresh non-negative root; small shapes.",
-    design="DESIGN.md section 4 (C13)")
-
-CHECKS["C15"] = dict(
-    engine="E3: the real estimate_loc/estimate_scale/estimate_zscore/_scale_* (incl. the 1-D qn/gapper/diffcov bodies and doublemad) and utils.apply_along_axes bytecode on numpy object arrays of symbolic reals; order statistics as uninterpreted functions of their ordered lane under a trusted contract; z3",
-    technique="symbolic execution of the real estimator code over numpy object arrays (numpy's own broadcasting/moveaxis/reshape), with every order statistic (median, percentile, k-th order statistic of sort/partition, std, cov, sqrt) an uninterpreted function of the ordered lane it receives, constrained by instances of its affine contract; z3 (EUF+LRA) decides lane-consistency, shapes, the zero-scale guard and affine equivariance for concrete multipliers and symbolic offsets/data; models replayed on the real estimators",
-    text="Decided within bounds: apply_along_axes hands each lane (or the flattened data) to the 1-D estimator in order for axis in {None, int, "
-         "negative, tuple}; estimate_loc (mean, median) and estimate_scale (std, iqr, mad, sn, qn, gapper, diffcov) along an axis equal the 1-D "
-         "estimator on each lane and over the whole array equal it on the flattened data, keepdims results broadcast against the input; "
-         "estimate_zscore's divisor is never zero (a near-zero scale is replaced by one) and z-scores keep the input's shape; "
-         "affine equivariance loc(a*x+b)=a*loc(x)+b, scale(a*x+b)=|a|*scale(x) (std, iqr, mad with its fallback, doublemad, sn, qn, gapper, diffcov) and "
-         "zscore(a*x+b)=sign(a)*zscore(x) for non-degenerate scale, for the listed multipliers a of both signs, symbolic b and symbolic lanes. "
-         "PARTIAL: the biweight estimator (astropy internals), finiteness under float32 overflow, and multipliers other than the listed rationals are not decided.",
-    note="Order statistics are trusted uninterpreted functions of the ordered lane plus their affine contract; exact arithmetic; lanes of 5 (quick) / 8 (thorough) elements, doublemad 3 / 4; scale estimates strictly between 0 and 1e-5 excluded (np.isclose threshold).",
-    design="DESIGN.md section 4 (C15), section 10")
-
-CHECKS["C16"] = dict(
-    engine="E3 on RFIMask.apply_mask/apply_method/apply_funcn (object arrays of symbolic booleans/reals) + E2 on Filterbank.clean_rfi orchestration and the apply_channel_mask streaming harness of C07; z3",
-    technique="symbolic execution of the real mask-combination bytecode with symbolic channel frequencies, range edges and arbitrary symbolic per-statistic/custom/previous masks; recorder-based execution of clean_rfi; the C07 streaming harness for the per-block masking; z3 decides; models replayed on the real RFIMask/clean_rfi",
-    text="PARTIAL. Decided: user mask = closed-interval membership of each channel centre frequency in any given range; statistics mask = union "
-         "of the variance/skewness/kurtosis masks computed with the mask's threshold; final mask = previous OR user OR statistics OR custom, and "
-         "no step ever unmasks a channel; clean_rfi applies the masks in order and hands the final mask, the mask value and the same plan to "
-         "apply_channel_mask, whose output (masked channels = mask value, every other sample bit-identical, every block, every gulp) is the "
-         "C07 harness re-run here. NOT decided: the outlier definitions inside double_mad_mask/iqrm_mask (robust estimators), the HDF5 round "
-         "trip of RFIMask.to_file/from_file (h5py is FFI), the default mask value.",
-    note="The per-statistic mask functions and the custom function are arbitrary boolean vectors; 3-4 channels, 0-2 ranges.",
-    design="DESIGN.md section 4 (C16)")
 
 NOT_APPLICABLE = {}
 
